@@ -80,12 +80,7 @@ func propertyTable() map[string]PropertyCfg {
 					}
 					return true
 				},
-				Unclaimed: map[string]string{
-					"stlCharacterHandler.decode#type-assert[vi.(string)]": "the handler's table h.m is one of the BiMaps of stlCharacterCodeTables (all with string values); table facts are attached to package-level BiMaps named at the call, not to one held in a struct field: not decided",
-					"teletextCharacterDecoder.decode#index[d.c[i-0x20]]": "page rows hold parity-stripped bytes (< 128, astikit.ByteParity), so the index stays below 96; carrying that fact from parsePacketData through the packet buffer to the row parser needs a two-level quantified invariant over map-held slices that the solvers stop discharging once contract calls havoc their frames: not decided (the index was proved before the frame treatment was made sound; see DESIGN.md section 4)",
-					"ReadFromTeletext#inv-step[loop1:inv3]": "'the collected pages are non-nil' across the call of process: process writes the pointer-element heap only inside the buffer's own done-pages array, but its inferred frame is lost at its internal loop (no parameter-relative loop frame candidate yet): not decided; the obligations that depend on it (the receiver of page.parse) are proved under this invariant",
-					"ReadFromTeletext#inv-entry[loop2:inv2]": "same invariant at the entry of the page-parsing loop: not decided",
-				},
+				Unclaimed: sweepUnclaimed,
 			},
 			Assumptions: []string{
 				"panic sites covered: nil dereference, index and slice bounds, nil-map write, failed type assertion, division by zero, negative make size, plus every loop invariant and every precondition at its call sites; out of scope: stack overflow, out-of-memory, panics inside library functions on valid arguments",
@@ -107,6 +102,7 @@ func propertyTable() map[string]PropertyCfg {
 					}
 					return false
 				},
+				Unclaimed: sweepUnclaimed,
 			},
 			Assumptions: []string{
 				"fault model (contracts/extern.gvc, trusted): a reader carries a ghost flag `failed` set exactly when one of its Read calls returns an error other than io.EOF; a writer carries `wfailed` set exactly when one of its Write calls returns an error; `overlong` is set on a reader when a bufio.Scanner polling it gives up on a token longer than its buffer; the cell nil.fsfault is set when os.Open / os.Create returns an error",
@@ -127,16 +123,19 @@ func propertyTable() map[string]PropertyCfg {
 					}
 					return callTree(p, ws)
 				},
-				Select: func(o *Obligation) bool {
+				SelectP: func(p *Program, o *Obligation) bool {
 					switch o.Kind {
-					case "assigns", "map-order", "clock":
+					case "assigns":
+						// purity of the cue list: heaps that can hold cue-list data (reachable by type from Subtitles)
+						return strings.HasPrefix(o.Func, "Subtitles.WriteTo") && purityObligationOfCueList(p, o)
+					case "map-order", "clock":
 						return true
 					case "inv-entry", "inv-step":
 						return strings.HasPrefix(o.Func, "Subtitles.WriteTo")
 					}
 					return false
 				},
-				Unclaimed: c19Unclaimed,
+				Unclaimed: sweepUnclaimed,
 			},
 			Assumptions: []string{
 				"purity (no writer modifies the cue list it is given): each WriteToX carries `assigns` with ghost state only, so at every return every heap array must agree with its value at entry on all locations that existed at entry (obligation kind assigns, one per struct type); callees are used through their contracts' frames or through frames inferred from their bodies (proved, not assumed)",
@@ -150,16 +149,16 @@ func propertyTable() map[string]PropertyCfg {
 		"C20": {ID: "C20",
 			Sweep: &SweepCfg{
 				Funcs: func(p *Program) []string { return sweepFuncs(p) },
-				Select: func(o *Obligation) bool {
+				SelectP: func(p *Program, o *Obligation) bool {
 					switch o.Kind {
 					case "global-write":
 						return true
 					case "assigns":
-						return strings.HasPrefix(o.Func, "Subtitles.WriteTo")
+						return strings.HasPrefix(o.Func, "Subtitles.WriteTo") && purityObligationOfCueList(p, o)
 					}
 					return false
 				},
-				Unclaimed: c19Unclaimed,
+				Unclaimed: sweepUnclaimed,
 			},
 			Special: c20Special,
 			Assumptions: []string{
@@ -181,4 +180,9 @@ func propertyTable() map[string]PropertyCfg {
 // c19Unclaimed: purity obligations of writers that the frame inference cannot discharge yet
 // (accumulators grown inside nested loops, byte buffers built by several helpers). They are
 // reported in the evidence as undecided, never as proved, and never as violations.
-var c19Unclaimed = map[string]string{}
+var sweepUnclaimed = map[string]string{
+	"stlCharacterHandler.decode#type-assert[vi.(string)]": "the handler's table h.m is one of the BiMaps of stlCharacterCodeTables (all with string values); table facts are attached to package-level BiMaps named at the call, not to one held in a struct field: not decided",
+	"teletextCharacterDecoder.decode#index[d.c[i-0x20]]":  "page rows hold parity-stripped bytes (< 128, astikit.ByteParity), so the index stays below 96; carrying that fact from parsePacketData through the packet buffer to the row parser needs a two-level quantified invariant over map-held slices that the solvers stop discharging once contract calls havoc their frames: not decided (the index was proved before the frame treatment was made sound; see DESIGN.md section 4)",
+	"ReadFromTeletext#inv-step[loop1:inv3]":               "'the collected pages are non-nil' across the call of process: process writes the pointer-element heap only inside the buffer's own done-pages array, but its inferred frame is lost at its internal loop (no parameter-relative loop frame candidate yet): not decided; the obligations that depend on it (the receiver of page.parse) are proved under this invariant",
+	"ReadFromTeletext#inv-entry[loop2:inv2]":              "same invariant at the entry of the page-parsing loop: not decided",
+}
